@@ -99,4 +99,14 @@ var props = map[string]*Prop{
 			{Name: "crash-bulk-rebuild", Pkg: "pkg/storage/pebbledb", Test: "TestVerifC07Bulk", Shards: sh(16, 16), TimeoutS: sh(900, 3600), DeadlineS: sh(400, 2400)},
 		},
 	},
+	"C18": {
+		Level: "exploration",
+		Rule: "(a) every signature list of size <=3 over a 4-entry pool (unicode/RTL names, escapes, empty and nil optional fields, control-flow hints, a repeated ID) and generated lists of 999/1000/1001/2001 entries with IDs repeated adjacent, far apart and across every 1000-entry batch boundary are migrated into a fresh database and exported; EVERY truncation offset of the small lists' JSON (and every offset around batch boundaries and the tail for the big ones) and an 8-entry malformed menu are migrated as well; (b) every history of <=3 steps over {AddSignature, AddSignatures(1-2 entries, repeated and generated IDs), save+load / close+reopen} on both back ends with a fetch of every added ID after every step; (c) see unit save-atomicity. Non-trivial = distinct list / history.",
+		Assumptions: []string{"gob and omitempty cannot distinguish nil from empty slices nor a nil from a zero control-flow block: compared modulo that", "a truncated file that is migrated without error is accepted only if the store then holds the last-wins set of the WHOLE untruncated file (losing only trailing brackets is not a short success)"},
+		Bounds:      map[string]string{"quick": "lists <=3, one big list (1001), histories <=3", "thorough": "lists <=3, big lists 999/1000/1001/2001, histories <=3"},
+		Units: []Unit{
+			{Name: "migrate-roundtrip", Pkg: "pkg/storage/pebbledb", Test: "TestVerifC18Migrate", Shards: sh(16, 16), TimeoutS: sh(900, 3600), DeadlineS: sh(400, 2400)},
+			{Name: "add-get-histories", Pkg: "pkg/storage/pebbledb", Test: "TestVerifC18AddGet", Shards: sh(8, 8), TimeoutS: sh(900, 3600)},
+		},
+	},
 }
